@@ -9,6 +9,9 @@ From CG Require Import Model.Check.
 From CG Require Import Model.Dfa.
 From CG Require Import Spec.Choice.
 From CGgen Require Import Consts.
+From CG Require Import Model.Tpl.
+From CG Require Import Model.Quote.
+From CG Require Import Spec.ShellDQ.
 (* add new Require lines above this line *)
 Require Import ExtrOcamlBasic ExtrOcamlString.
 Extraction Language OCaml.
@@ -23,5 +26,9 @@ Separate Extraction
   Dfa.mkall
   Dfa.trans_states
   Choice.spec
+  Quote.make_string_constant
+  ShellDQ.read
+  ShellDQ.read_list
+  ShellDQ.admissibleb
   (* add new roots above this line *)
   Prelude.pow2.
